@@ -794,6 +794,54 @@ fn strings_upto(alpha: &[char], maxlen: usize, part: usize, nparts: usize, f: &m
     }
 }
 
+/// Inputs whose length or magnitude sits at a machine limit: decimal numbers of every digit count up to 40 (all nines,
+/// one followed by zeros) and the neighbours of the 32- and 64-bit limits, bare and signed, alone and in the number
+/// positions of the ISO and RFC 2822 forms; repeated structure (nested / long / many comments, white-space runs, zero
+/// padding, fraction digits) at every length up to 300 and around 2^16 — into every parser.
+fn long_inputs(acc: &mut Acc) {
+    let mut nums: Vec<String> = vec![];
+    for n in 1..=40usize {
+        nums.push("9".repeat(n));
+        nums.push(format!("1{}", "0".repeat(n - 1)));
+        nums.push(format!("{}1", "0".repeat(n)));
+    }
+    for lim in [i32::MAX as i128, u32::MAX as i128, i64::MAX as i128, u64::MAX as i128, 262_143, 9_999, 99_999_999_999_999_999, 999_999_999_999_999_999, 1_000_000_000_000_000_000, 9_000_000_000_000_000_000, 9_999_999_999_999_999_999] {
+        for d in -2..=2i128 {
+            nums.push(format!("{}", lim + d));
+        }
+    }
+    for num in &nums {
+        for sign in ["", "+", "-"] {
+            let v = format!("{}{}", sign, num);
+            every_parser(acc, &v);
+            every_parser(acc, &format!("{}-01-01", v));
+            every_parser(acc, &format!("{}-01-01T00:00:00Z", v));
+            every_parser(acc, &format!("2015-09-05T23:56:04.{}Z", num));
+            every_parser(acc, &format!("23:56:04.{}", num));
+            if sign.is_empty() {
+                every_parser(acc, &format!("Tue, 1 Jul {} 10:52:37 +0200", num));
+                every_parser(acc, &format!("Tue, {} Jul 2003 10:52:{} +{}", num, num, num));
+                every_parser(acc, &format!("Sun Jul  8 00:34:60 {}", num));
+                every_parser(acc, &format!("2001-W{}-7 12 AM CET", num));
+            }
+        }
+        acc.states += 1;
+    }
+    for n in (1..=300usize).chain(65_534..=65_538) {
+        every_parser(acc, &format!("Tue, 1 Jul 2003 10:52:37 +0200 {}{}", "(".repeat(n), ")".repeat(n)));
+        every_parser(acc, &format!("Tue, 1 Jul 2003 10:52:37 +0200 {}", "(".repeat(n)));
+        every_parser(acc, &format!("Tue, 1 Jul 2003 10:52:37 +0200 {}", "(\\".repeat(n)));
+        every_parser(acc, &format!("Tue, 1 Jul 2003 10:52:37 +0200 ({})", "x".repeat(n)));
+        every_parser(acc, &format!("Tue, 1 Jul 2003 10:52:37 +0200{}", " (a)".repeat(n)));
+        every_parser(acc, &format!("Tue,{}1 Jul 2003 10:52:37 +0200", " ".repeat(n)));
+        every_parser(acc, &format!("2015-09-05{}23:56:04", " ".repeat(n)));
+        every_parser(acc, &format!("{}2015-09-05", "0".repeat(n)));
+        every_parser(acc, &format!("2015-09-05T23:56:04.{}Z", "5".repeat(n)));
+        every_parser(acc, &"9".repeat(n));
+        acc.states += 1;
+    }
+}
+
 const VALID_INPUTS: &[&str] = &[
     "2015-09-05", "23:56:04.012345678", "2015-09-05T23:56:04", "2015-09-05 23:56:04 UTC", "2015-09-05T23:56:04+09:30", "+12345-12-31T23:59:60.5Z", "-0001-01-01 00:00:00 +00:00", "Tue, 1 Jul 2003 10:52:37 +0200",
     "Fri, 21 Nov 97 09:55:06 -0600 (comment (nested))", "1996-12-19T16:39:57-08:00", "+09:30", "-23:59", "Wednesday", "sep", "September", "Sun Jul  8 00:34:60 2001", "994518299", "-8334601228800", "20010708003459.026+0930", "2001-W27-7 12 AM CET", "Jan", "Sept", "Thurs", "December", "Wed",
@@ -834,6 +882,7 @@ fn main() {
             rerender_after_failure(acc, &dtm);
         } else if u == 6 {
             parsed_extremes(acc);
+            long_inputs(acc);
         } else if u < 7 + nsp {
             let mut n = 0u64;
             strings_upto(STR_ALPHA, slen, (u - 7) as usize, nsp as usize, &mut |s| {
